@@ -17,10 +17,19 @@ Theorem C14_prep_composes : forall sg fs0 refs ds s0, init_state sg fs0 refs ds 
   forall ops s, run false sg s0 ops = POk s ->
     (cur s, fs s) = apply_ops (since_rb ops) (ds, fs0)
     /\ mk_data sg refs (cur s) = POk (data s)
-    /\ exists s', run false sg s0 (ops ++ [AddAlg]) = POk s'
-         /\ bound s' = bound s ++ [(data s, fs s)]
+    /\ forall nm, exists s', run false sg s0 (ops ++ [AddAlg nm]) = POk s'
+         /\ bound s' = bound s ++ [(nm, (data s, fs s))]
          /\ cur s' = cur s /\ data s' = data s /\ fs s' = fs s /\ dt s' = dt s /\ Ndats s' = Ndats s /\ Ts s' = Ts s.
 Proof. exact prep_composes. Qed.
+
+(* add_algorithms(alg) re-binds: afterwards the instance nm holds the data and fs of the setup at that moment, whether or
+   not it had been added before (either model); what every other instance holds, and the setup itself, are untouched *)
+Theorem C14_prep_rebind : forall pc sg s0 ops s nm, run pc sg s0 ops = POk s ->
+  exists s', run pc sg s0 (ops ++ [AddAlg nm]) = POk s'
+    /\ alg_lookup nm (bound s') = Some (data s, fs s)
+    /\ (forall nm', nm' <> nm -> alg_lookup nm' (bound s') = alg_lookup nm' (bound s))
+    /\ cur s' = cur s /\ data s' = data s /\ fs s' = fs s /\ dt s' = dt s /\ Ndats s' = Ndats s /\ Ts s' = Ts s.
+Proof. exact prep_rebind. Qed.
 
 (* what an algorithm received stays in the log unchanged, whatever is called afterwards (either model) *)
 Theorem C14_prep_bound_stable : forall pc sg s0 ops more s s',
@@ -83,6 +92,7 @@ Theorem C14_printer_term_eqb_sound : forall a b, term_eqb a b = true -> a = b.
 Proof. exact term_eqb_eq. Qed.
 
 Print Assumptions C14_prep_composes.
+Print Assumptions C14_prep_rebind.
 Print Assumptions C14_prep_bound_stable.
 Print Assumptions C14_prep_metadata.
 Print Assumptions C14_prep_rollback.
@@ -94,14 +104,15 @@ Print Assumptions C14_single_T_refuted.
 Print Assumptions C14_printer_term_eqb_sound.
 
 (* non-vacuity: a PreGER object with two datasets (800x3 with references [2;0], 840x4 with references [1;3]) at 1000 Hz can be
-   built, and the documentation's own history  filter -> decimate(ftype="fir") -> add_algorithms -> detrend -> rollback -> decimate
-   runs without error; its final state is the single decimation by 2 of the initial data at 500 Hz. *)
+   built, and the documentation's own history  filter -> decimate(ftype="fir") -> add_algorithms(alg) -> detrend -> rollback -> decimate
+   -> add_algorithms(the same alg) runs without error; its final state is the single decimation by 2 of the initial data at 500 Hz,
+   and that is what the re-added algorithm holds. *)
 Example C14_example :
   let fs0 := Q2Qc (1000#1) in
   let ds := inits [(800,3);(840,4)]%nat in
   let refs := [[2;0];[1;3]]%nat in
-  let ops := [Filter (W2 (Q2Qc (1#2)) (Q2Qc (2#1))) 2 "bandpass"; Decimate 3 [("ftype", VStr "fir")]; AddAlg;
-              Detrend [("type", VStr "constant")]; Rollback; Decimate 2 []] in
+  let ops := [Filter (W2 (Q2Qc (1#2)) (Q2Qc (2#1))) 2 "bandpass"; Decimate 3 [("ftype", VStr "fir")]; AddAlg 7;
+              Detrend [("type", VStr "constant")]; Rollback; Decimate 2 []; AddAlg 7] in
   Forall op_documented ops /\
   exists s0 s, init_state false fs0 refs ds = POk s0 /\ run false false s0 ops = POk s
     /\ cur s = [Dec 2 [] (Init 0 800 3); Dec 2 [] (Init 1 840 4)]
@@ -109,7 +120,8 @@ Example C14_example :
     /\ Ndats s = [400; 420]%nat
     /\ map (fun x : Qc => this x) [fs s; dt s] = [500#1; 1#500]
     /\ map (fun x : Qc => this x) (Ts s) = [4#5; 21#25]
-    /\ List.length (bound s) = 1%nat.
+    /\ List.length (bound s) = 2%nat
+    /\ alg_lookup 7 (bound s) = Some (data s, fs s).
 Proof.
   cbv zeta. split; [repeat constructor|].
   eexists. eexists. split; [vm_compute; reflexivity|]. split; [vm_compute; reflexivity|].
